@@ -489,7 +489,9 @@ class UidSearchCommand(SearchCommand):
     @classmethod
     def parse(cls, buf: memoryview, params: Params) \
             -> tuple[UidSearchCommand, memoryview]:
-        ret, buf = super().parse(buf, params.copy(uid=True))
+        # RFC 3501 6.4.8: UID SEARCH returns UIDs, but message sets in the
+        # search criteria are still sequence numbers unless prefixed by UID.
+        ret, buf = super().parse(buf, params)
         if not isinstance(ret, UidSearchCommand):
             raise TypeError(ret)
         return ret, buf
